@@ -48,7 +48,11 @@ def cr_case(draw, tier="quick"):
     return {"form": form, "d": d, "A": draw(C.hpoint(d, 6)), "B": draw(C.hpoint(d, 6)), "V": V, "W": draw(C.hpoint(d, 6)), "pars": pars,
             "m": draw(Z.params(9)), "order": draw(st.sampled_from(sorted(ORDERS))), "transform": draw(st.booleans()),
             "coll": draw(st.sampled_from([0, 0, 0, 2, 2, "8x8", "2x5x7", "70", "1x64"])),
-            "ipars": [[draw(st.integers(-2, 2)), draw(st.integers(-2, 2))] for _ in range(4)] if draw(st.sampled_from([False, False, True])) else None}
+            "ipars": [[draw(st.integers(-2, 2)), draw(st.integers(-2, 2))] for _ in range(4)] if draw(st.sampled_from([False, False, True])) else None,
+            "pscale": [draw(st.integers(0, 6)) for _ in range(4)]}
+
+
+PLANE_FACTORS = [1.0, 1.0, 1000 / 3, 700.7, -1234.5, 0.1, 97.3]
 
 
 def f2(v):
@@ -86,7 +90,16 @@ def build_config(c):
     if form == "planes3":
         if X.rank([A, B, V, W]) < 4:
             raise Skip("axis meets the line")
-        es = [Plane(f2(X.cofactor_hyperplane([V, W, p]))) for p in pts]
+        # each plane by its own representative: equations with coefficients of some hundreds or thousands that are no integers (planes
+        # given in millimetres, normals from cross products of edge vectors) are as good as the small integer ones
+        ps = c.get("pscale") or [0, 0, 0, 0]
+        if c.get("coll") or c.get("transform"):
+            # collections mix these representatives with others of size one and a transformation multiplies the sizes once more: the
+            # absolute tolerances inside crossratio are not made for a factor 1e6 between its arguments (moderate magnitudes only)
+            ps = [0, 0, 0, 0]
+        if len(ps) != 4 or any(not isinstance(k, int) or not 0 <= k < len(PLANE_FACTORS) for k in ps):
+            raise Skip("malformed")
+        es = [Plane(f2(X.cofactor_hyperplane([V, W, p])) * PLANE_FACTORS[k]) for p, k in zip(pts, ps)]
         return es, {}, pars
     if form == "lines3":
         if X.rank([A, B, V]) < 3:
@@ -195,6 +208,8 @@ def cr_labels(c):
         out.append("viewpoints-finite-and-at-infinity")
     if c.get("ipars") and c["form"] in ("points1", "points2", "points3", "from_point2") and any(x[0] or x[1] for x in c["ipars"]):
         out.append("complex-parameters")
+    if c["form"] == "planes3" and not c["coll"] and not c["transform"] and sum(1 for k in (c.get("pscale") or []) if k >= 2 and k != 5) >= 3:
+        out.append("planes3:large-non-integer-coefficients")
     return out
 
 
@@ -324,7 +339,7 @@ LAWS = [
     Law("crossratio", lambda tier: cr_case(tier), run_cr, cr_nontrivial, cr_labels, {"quick": 3000, "thorough": 60000},
         "closed-form value for every form (points 1D/2D/3D, concurrent lines 2D/3D, from_point, coaxial planes), argument orders "
         "abcd/badc/cdab/abdc/acbd (the symmetry relations), invariance under a projective map", shard=400,
-        mandatory=("special-vertex", "endpoint-parameter", "transformed", "lines2", "planes3", "points1", "complex-parameters", "collection>=64-several-axes", "viewpoints-finite-and-at-infinity")),
+        mandatory=("special-vertex", "endpoint-parameter", "transformed", "lines2", "planes3", "points1", "complex-parameters", "collection>=64-several-axes", "viewpoints-finite-and-at-infinity", "planes3:large-non-integer-coefficients")),
     Law("crossratio_clustered_1d", lambda tier: cluster_case(tier), run_cluster, lambda c: abs(c["N"]) >= 1000, lambda c: [f"N={c['N']}"], {"quick": 400, "thorough": 5000},
         "four integer points N+o_i of P^1 (|N| up to 1e6, exact determinants): value depends on the offsets only", shard=400),
     Law("harmonic_set", lambda tier: hs_case(tier), run_hs, lambda c: True, lambda c: [f"d{c['d']}", "coll" if c["coll"] else "single"] + (["big-integers"] if c.get("bigint") else []),
